@@ -142,7 +142,7 @@ func SWorker(scens []Scenario) {
 // level that was completed (plus the partial next level if the deadline hit); violations of all
 // levels are kept. split: scenarios are split into their level-1 subtrees (few, large scenarios).
 func ExploreAll(r *Run, scens []Scenario, split bool, maxExecsPerTask int) *SSummary {
-	pool := NewPool(r.NProc, "-tier", r.Tier, "-seed", fmt.Sprint(r.Seed))
+	pool := NewPool(r.NProc, os.Args[1:]...)
 	defer pool.Close()
 	maxCap := 0
 	for _, sc := range scens {
@@ -305,7 +305,14 @@ func ReplayScenario(sc Scenario, choices []int, key string) (ok bool, detail str
 	if x1.Diverged != "" || x2.Diverged != "" {
 		return false, "replay diverged: " + x1.Diverged + x2.Diverged
 	}
-	if len(x1.Points) != len(x2.Points) || fmt.Sprint(f1) != fmt.Sprint(f2) || x1.Outcome != x2.Outcome {
+	keys := func(fs []simrt.Failure) string {
+		s := ""
+		for _, f := range fs {
+			s += f.Key + ";"
+		}
+		return s
+	}
+	if len(x1.Points) != len(x2.Points) || keys(f1) != keys(f2) || x1.Outcome != x2.Outcome {
 		return false, "replay is not deterministic"
 	}
 	for _, f := range f1 {
@@ -318,4 +325,59 @@ func ReplayScenario(sc Scenario, choices []int, key string) (ok bool, detail str
 		}
 	}
 	return false, "failure not reproduced"
+}
+
+// ConfirmViolations replays every found violation twice (determinism) and attaches the described schedule.
+func ConfirmViolations(sum *SSummary, scens []Scenario) []Violation {
+	byName := map[string]Scenario{}
+	for _, s := range scens {
+		byName[s.Name] = s
+	}
+	viol := sum.Violations()
+	for i, v := range viol {
+		f := sum.Found[v.Key]
+		ok, detail := ReplayScenario(byName[f.Scenario], f.Choices, v.Key)
+		if !ok {
+			b, _ := json.Marshal(map[string]any{"replay": map[string]any{"scenario": f.Scenario, "choices": f.Choices}, "key": v.Key, "msg": v.Msg})
+			_ = os.WriteFile("/var/tmp/vcheck-unconfirmed.json", b, 0o644)
+			EngineError("violation %s in %s does not replay deterministically: %s (artefact: /var/tmp/vcheck-unconfirmed.json)", v.Key, f.Scenario, detail)
+		}
+		viol[i].Msg = v.Msg + "\n[scenario " + f.Scenario + "]\n" + detail
+	}
+	return viol
+}
+
+// MaybeReplay handles -replay <file>: re-executes the recorded schedule without the explorer,
+// prints the described run and exits 1 if the violation reproduces, 0 otherwise.
+func MaybeReplay(r *Run, scens []Scenario) {
+	if r.ReplayIn == "" {
+		return
+	}
+	b, err := os.ReadFile(r.ReplayIn)
+	if err != nil {
+		EngineError("replay: %v", err)
+	}
+	var art struct {
+		Key    string `json:"key"`
+		Replay struct {
+			Scenario string `json:"scenario"`
+			Choices  []int  `json:"choices"`
+		} `json:"replay"`
+	}
+	if err := json.Unmarshal(b, &art); err != nil {
+		EngineError("replay: %v", err)
+	}
+	for _, sc := range scens {
+		if sc.Name == art.Replay.Scenario {
+			ok, detail := ReplayScenario(sc, art.Replay.Choices, art.Key)
+			fmt.Println(detail)
+			if ok {
+				fmt.Printf("VIOLATION property=%s replay=%s\n", r.ID, r.ReplayIn)
+				os.Exit(1)
+			}
+			fmt.Println("not reproduced")
+			os.Exit(0)
+		}
+	}
+	EngineError("replay: scenario %q not found", art.Replay.Scenario)
 }
